@@ -48,6 +48,51 @@ def monitor_c18(trace, status):
                         problems.append("step %d: writer t%d has found each slot empty since it published (so every delivery in flight then has returned), yet it goes on waiting: `%s` is its %dth further look at the slots; it is waiting for deliveries that began later, and a continuous stream of them would hold it for ever" % (i, tid, body, st[2]))
                 if int(mm.group(3)) == 0:
                     st[int(mm.group(2))] = True
+    # the writer waits for the deliveries that were inside a read section when it switched the generation,
+    # not for later ones: those enter the other slot, which the writer has seen empty before the switch. Once
+    # everybody who was inside at the switch has left, the writer needs only a few more own steps - however
+    # many deliveries have begun since and are still running. (Not judged on traces with a *stale* entry - a
+    # reader that read the generation before a switch and entered its slot after it: the writer rightly waits
+    # for that one too.)
+    gen_par, stale, inst, live = 0, False, 0, []      # live: [(instance id, tid)]
+    at_switch, after = {}, {}                         # writer tid -> instances inside at its switch / own steps since they all left
+    late = []
+    for i, l in enumerate(trace):
+        m = TID.match(l)
+        if not m:
+            continue
+        tid, body = int(m.group(1)), m.group(3)
+        mm = re.match(r"fetch_add (\S*)lock([01]) = ", body)
+        if mm:
+            if int(mm.group(2)) != gen_par:
+                stale = True
+            inst += 1
+            live.append((inst, tid))
+            continue
+        if body.startswith("fetch_sub") and "lock" in body.split()[1]:
+            for k in range(len(live) - 1, -1, -1):
+                if live[k][1] == tid:
+                    gone = live.pop(k)[0]
+                    for w in at_switch:
+                        at_switch[w].discard(gone)
+                    break
+            continue
+        mm = re.match(r"fetch_add (\S*)generation = (\d+)", body)
+        if mm:
+            gen_par = (int(mm.group(2)) + 1) % 2
+            at_switch[tid] = set(k for k, _ in live)
+            after[tid] = 0
+            continue
+        if body.startswith("mutex_unlock"):
+            at_switch.pop(tid, None)
+            after.pop(tid, None)
+            continue
+        if tid in at_switch and not at_switch[tid]:
+            after[tid] += 1
+            if after[tid] == 9:
+                late.append("step %d: everybody who was inside a read section when writer t%d switched the generation has left, yet after 8 more own steps the writer is still waiting (`%s`) - for deliveries that began later (%d running now); a continuous stream of those would hold it for ever" % (i, tid, body, len(live)))
+    if not stale:
+        problems += late
     inside = set()
     writer_steps_since_quiet = {}   # tid -> own steps since the last moment a reader was inside
     for i, l in enumerate(trace):
